@@ -5,7 +5,8 @@
 # /verif's files in which the path /repo is replaced by /tmp/alt-repo. Scratch only; nothing registered in
 # MANIFEST.json uses this. Remove with: tools/alt_eval.sh --clean
 set -u
-ALT_REPO=/tmp/alt-repo; ALT_VERIF=/tmp/alt-verif
+# ALT_SUFFIX selects an independent scratch pair (several evaluations can run side by side)
+ALT_REPO=/tmp/alt-repo${ALT_SUFFIX:-}; ALT_VERIF=/tmp/alt-verif${ALT_SUFFIX:-}
 if [ "${1:-}" = "--clean" ]; then
     git -C /repo worktree remove --force $ALT_REPO 2>/dev/null; git -C /repo worktree prune; rm -rf $ALT_VERIF; exit 0
 fi
